@@ -138,7 +138,7 @@ def check_case(ctx, case):
                 elif kind == 'second':
                     res = a.second_deriv(variant)
                 elif kind == 'meff':
-                    res = a.m_eff(variant)
+                    res = a.m_eff(variant) if case.get('guess') is None else a.m_eff(variant, guess=case['guess'])
                 elif kind == 'plateau':
                     aa = build(case)
                     # a stored plateau range (set_prange, Corr(..., prange=), inherited through arithmetic) only stands in
@@ -286,6 +286,8 @@ def gen_case(ctx, pattern=None, T=None):
         shape = 'cosh' if v in ('cosh', 'periodic', 'arccosh') else ('sinh' if v == 'sinh' else rng.choice(['decay', 'sign', 'cosh']))
         if v in ('cosh', 'periodic', 'sinh', 'arccosh') and rng.random() < 0.2:
             shape = 'sign'
+        if rng.random() < 0.3:
+            case['guess'] = rng.choice([0.3, 1.0, 2.5])      # any positive starting point of the root search: same root
     else:
         shape = rng.choice(['flat', 'decay', 'sign'])
         lo = rng.randrange(T)
